@@ -21,6 +21,7 @@ func main() {
 	tier := flag.String("tier", "", "quick|thorough (default $VERIF_TIER or quick)")
 	dir := flag.String("dir", "/repo", "subject directory")
 	verif := flag.String("verif", "/verif", "verif directory (evidence, known findings)")
+	overlay := flag.String("overlay", "", "tool mode (-property all): orig=replacement[,...] source overlay")
 	dump := flag.String("dump", "", "debug: dump facts of function pkgrel:Name[,ctx e.g. 2=F]")
 	list := flag.Bool("list", false, "list properties")
 	noSelf := flag.Bool("no-selfcheck", false, "thorough: skip the variant catalogue")
@@ -113,6 +114,10 @@ func main() {
 		doDump(*dir, *dump)
 		return
 	}
+	if *prop == "all" {
+		// tool mode (mutation runs): one load, every property's quick check, no self-check
+		os.Exit(runAll(*dir, *verif, seed, *overlay))
+	}
 	ck := props.Registry[*prop]
 	if ck == nil {
 		fmt.Printf("unknown property %q\n", *prop)
@@ -159,6 +164,59 @@ func runConfig(ck *props.Checker, cfg core.Config, rep *core.Report, tier string
 	run := &props.Run{P: p, E: core.NewEngine(p), R: rep, Tier: tier, Universal: tier == "thorough"}
 	ck.Run(run)
 	rep.SetCount("functions_with_dataflow["+cfg.Name+"]", len(run.E.Analysed))
+}
+
+// runAll loads the subject once and runs every registered checker (quick tier).
+func runAll(dir, verif string, seed int, overlay string) int {
+	cfg := core.Config{Name: "default", Dir: dir}
+	if overlay != "" {
+		// orig=replacement[,orig=replacement...]
+		cfg.Overlay = map[string][]byte{}
+		for _, kv := range strings.Split(overlay, ",") {
+			i := strings.Index(kv, "=")
+			if i < 0 {
+				continue
+			}
+			b, err := os.ReadFile(kv[i+1:])
+			if err != nil {
+				fmt.Printf("LOAD-ERROR %v\n", err)
+				return 3
+			}
+			cfg.Overlay[kv[:i]] = b
+		}
+	}
+	p, err := core.Load(cfg)
+	if err != nil {
+		fmt.Printf("LOAD-ERROR %v\n", err)
+		return 3
+	}
+	eng := core.NewEngine(p)
+	var ids []string
+	for id := range props.Registry {
+		ids = append(ids, id)
+	}
+	sort.Strings(ids)
+	rc := 0
+	for _, id := range ids {
+		ck := props.Registry[id]
+		rep := core.NewReport(ck.ID, "quick", seed)
+		rep.Explanation = ck.Explanation
+		rep.Assumptions = ck.Assumptions
+		rep.Trusted = props.CommonTrusted
+		rep.SetConfig(cfg.Name)
+		func() {
+			defer func() {
+				if x := recover(); x != nil {
+					rep.Unk(ck.ID+".engine.panic", "checker must not panic", "sidecheck", "-", "a crashed analysis decides nothing", fmt.Sprintf("panic: %v", x))
+				}
+			}()
+			ck.Run(&props.Run{P: p, E: eng, R: rep, Tier: "quick"})
+		}()
+		if rep.Finish(verif, "other") != 0 {
+			rc = 1
+		}
+	}
+	return rc
 }
 
 func doDump(dir, spec string) {
